@@ -65,7 +65,7 @@ def cases(tier, seed):
             n_pat = 2 ** (r * c)
             # complete up to 6 cells; every 8th pattern (always including
             # the empty, single-entry-free and full ones) beyond, in parts
-            parts = 1 if n_pat < 64 else 8
+            parts = 1 if n_pat < 64 else max(8, n_pat // 64)
             for part in range(parts):
                 yield {'kind': 'fileops', 'r': r, 'c': c, 'seed': seed,
                        'part': part, 'parts': parts,
